@@ -144,10 +144,13 @@ func c01Run(cs c01Case) (res c01Result) {
 		f := c01Fn(fb)
 		res.Fallback = &f
 	}
-	var builder *RoutingMatcherBuilder
+	// The plain builder (no optimizers) is always built: its match-set array, LPM sets and domain sets are what the
+	// model's lowering is compared with, and its domain matcher answers in the model's match-set indexing.
+	var prodBuilder *RoutingMatcherBuilder
 	if cs.Full {
-		// as NewControlPlane does: optimizers, then the builder from the normalized program
-		program, perr := routing.NewNormalizedProgram(conf.Routing.Rules, conf.Routing.Fallback,
+		// as NewControlPlane does: optimizers, then the builder from the normalized program.  The optimizers merge,
+		// sort and deduplicate, so the production array (and the bit index of every domain set) differs from the plain one.
+		program, perr := routing.NewNormalizedProgram(routing.DeepCloneRules(conf.Routing.Rules), conf.Routing.Fallback,
 			&routing.AliasOptimizer{},
 			&routing.DatReaderOptimizer{Logger: log},
 			&routing.MergeAndSortRulesOptimizer{},
@@ -157,10 +160,13 @@ func c01Run(cs c01Case) (res c01Result) {
 			res.Stage, res.Err = "build", "optimizers: "+perr.Error()
 			return res
 		}
-		builder, err = NewRoutingMatcherBuilderFromProgram(log, program, cs.Groups, nil)
-	} else {
-		builder, err = NewRoutingMatcherBuilder(log, conf.Routing.Rules, cs.Groups, nil, conf.Routing.Fallback)
+		prodBuilder, err = NewRoutingMatcherBuilderFromProgram(log, program, cs.Groups, nil)
+		if err != nil {
+			res.Stage, res.Err = "build", err.Error()
+			return res
+		}
 	}
+	builder, err := NewRoutingMatcherBuilder(log, conf.Routing.Rules, cs.Groups, nil, conf.Routing.Fallback)
 	if err != nil {
 		res.Stage, res.Err = "build", err.Error()
 		return res
@@ -190,10 +196,18 @@ func c01Run(cs c01Case) (res c01Result) {
 	for _, d := range builder.simulatedDomainSet {
 		res.DomSets = append(res.DomSets, c01DomSet{Idx: d.RuleIndex, Key: string(d.Key), Values: d.Domains})
 	}
-	matcher, err := builder.BuildUserspace()
+	plainMatcher, err := builder.BuildUserspace()
 	if err != nil {
 		res.Stage, res.Err = "userspace", err.Error()
 		return res
+	}
+	matcher := plainMatcher // decisions come from this one
+	if prodBuilder != nil {
+		matcher, err = prodBuilder.BuildUserspace()
+		if err != nil {
+			res.Stage, res.Err = "userspace", err.Error()
+			return res
+		}
 	}
 	plane := &ControlPlane{controlPlaneGenerationState: controlPlaneGenerationState{routingMatcher: matcher}}
 	var regs []*regexp.Regexp
@@ -240,7 +254,7 @@ func c01Run(cs c01Case) (res c01Result) {
 				pr.Err = err.Error()
 			}
 			if p.Domain != "" {
-				pr.Bm = matcher.domainMatcher.MatchDomainBitmap(p.Domain)
+				pr.Bm = plainMatcher.domainMatcher.MatchDomainBitmap(p.Domain)
 				d := strings.ToLower(strings.TrimSuffix(p.Domain, "."))
 				for i, re := range regs {
 					if re != nil && re.MatchString(d) {
